@@ -102,6 +102,7 @@ type FuncGen struct {
 	hookMatched map[int]bool
 	nonEsc   map[ssa.Value]bool
 	localRefs []string // refs of non-escaping local allocations made so far (terms)
+	ownRefs   []string // ... those among them that are this function's own allocations (never seen by any callee): no call can return them
 	// localRefClasses: for a local ref, the heap classes in which it can hold data (fields of its struct type,
 	// its cell / element class); absent = any class.  Havoc preserves a local only in those classes.
 	localRefClasses map[string]map[string]bool
@@ -778,13 +779,22 @@ func (g *FuncGen) computeNonEscaping() {
 						return false
 					}
 				}
+			case *ssa.Slice:
+				// a slice of a local array: local as long as the slice itself only goes to non-retaining uses
+				if x.X != v || !ok(x, depth+1) {
+					return false
+				}
 			case *ssa.Call:
-				// builtins len/cap/delete are fine
+				// builtins len/cap/delete are fine; copy and the encoding/binary byte-order helpers read or write
+				// the bytes they are handed and keep no reference to them
 				if b, isB := x.Call.Value.(*ssa.Builtin); isB {
 					switch b.Name() {
-					case "len", "cap", "delete":
+					case "len", "cap", "delete", "copy":
 						continue
 					}
+				}
+				if fn, isFn := x.Call.Value.(*ssa.Function); isFn && !x.Call.IsInvoke() && strings.HasPrefix(fn.String(), "(encoding/binary.") {
+					continue
 				}
 				return false
 			default:
